@@ -16,6 +16,7 @@ import (
 	"free5gclib/nas/nasTestpacket"
 	"free5gclib/nas/nasType"
 	"free5gclib/nas/security"
+	"free5gclib/ngap/ngapType"
 	"free5gclib/openapi/models"
 	"tglib"
 	"verifharness/internal/ev"
@@ -259,6 +260,7 @@ func replay(cases, out string) {
 	sc := bufio.NewScanner(f)
 	sc.Buffer(make([]byte, 1<<20), 1<<26)
 	var ue *tglib.RanUeContext
+	ncase := 0
 	toB := func(x interface{}) []byte {
 		a, _ := x.([]interface{})
 		b := make([]byte, len(a))
@@ -285,7 +287,21 @@ func replay(cases, out string) {
 			pdu := toB(c["pdu"])
 			var m *nas.Message
 			var err error
-			p := ev.Catch(func() { m, err = tglib.NASDecode(ue, nas.GetSecurityHeaderType(pdu), append([]byte{}, pdu...)) })
+			ncase++
+			var p string
+			if ncase%3 == 0 || len(pdu) <= 4 {
+				// every third message (and every message of at most four octets) arrives the way the registration procedure receives it: inside a DOWNLINK NAS TRANSPORT, through
+				// tglib.GetNasPdu (which returns nil where NASDecode returns an error)
+				dt := ngapType.DownlinkNASTransport{}
+				ie := ngapType.DownlinkNASTransportIEs{}
+				ie.Id.Value = ngapType.ProtocolIEIDNASPDU
+				ie.Value.Present = ngapType.DownlinkNASTransportIEsPresentNASPDU
+				ie.Value.NASPDU = &ngapType.NASPDU{Value: append([]byte{}, pdu...)}
+				dt.ProtocolIEs.List = append(dt.ProtocolIEs.List, ie)
+				p = ev.Catch(func() { m = tglib.GetNasPdu(ue, &dt) })
+			} else {
+				p = ev.Catch(func() { m, err = tglib.NASDecode(ue, nas.GetSecurityHeaderType(pdu), append([]byte{}, pdu...)) })
+			}
 			obs := ev.M{"err": err != nil || p != "" || m == nil, "dl": int(ue.DLCount.Get()), "plain": []int{}, "same": false}
 			if m != nil && err == nil && p == "" {
 				// what the caller gets: the decoded message; compare with the decoding of the plain message the AMF protected
